@@ -563,3 +563,8 @@ Fixpoint subterm_at (e : texpr) (p : list nat) : option texpr :=
 Definition site_valid (it : item) (j : nat) (p : list nat) : Prop :=
   (exists e sub, nth_error (item_exprs it) j = Some e /\ subterm_at e p = Some sub)
   \/ (p = [] /\ j = length (item_exprs it)).
+
+(* C13 as written, for the implementation's table: accepted exactly when derivable in the
+   documented relation.  Properties_C13 refutes it and proves the guarded version. *)
+Definition typecheck_sound_complete_statement : Prop :=
+  forall G m, typecheck_module impl_table G m = MOk <-> well_typed_items G m.
